@@ -16,8 +16,6 @@ pub mod point {
     pub const ALLOC_AFTER_RAISE: u32 = 2;
     /// `kill_atomic`: after the aliveness test, before `killed.add_atomic`.
     pub const KILL_AFTER_CHECK: u32 = 3;
-    /// `pop_atomic`: after the winning decrement, before the slot read.
-    pub const POP_AFTER_DECREMENT: u32 = 4;
     /// `atomic_increment`: between the load / failed CAS and the next CAS.
     pub const INC_BEFORE_CAS: u32 = 5;
     /// `atomic_decrement`: between the load / failed CAS and the next CAS.
